@@ -306,7 +306,7 @@ static int runCase(Prob& P, const Run& R, const std::string& tag) {
         if (alg == LBFGS || alg == LBFGSB) {
             std::vector<double> s0 = R.x0;
             if (P.hasLim && alg == LBFGSB) for (int i = 0; i < n; ++i) s0[i] = std::min(std::max(s0[i], P.lo[i]), P.hi[i]);
-            vh::P("vector_left_not_worse_than_start", akey + ".exc.descent", P.fAt(xret.data()) - P.fAt(s0.data()), 0.0);
+            { double f0 = P.fAt(s0.data()); vh::P("vector_left_not_worse_than_start", akey + ".exc.descent", P.fAt(xret.data()) - f0, 1e-12 * (1 + std::fabs(f0))); }   // the restored vector is x0 + a*d - a*d: rounding
         }
     }
     return status;
